@@ -15,6 +15,12 @@ type Pool struct {
 	lazySendM sync.Mutex
 	listM     sync.Mutex
 
+	// stopM orders Send's registration in sendWg against Stop waiting for it:
+	// once stopped is set no Send registers any more, so the wait group is never
+	// added to while (or after) Stop waits on it.
+	stopM   sync.RWMutex
+	stopped bool
+
 	el   core.List[Event]
 	pool core.Pool[core.Node[Event]]
 
